@@ -269,3 +269,43 @@ def config_immutable(F):
     if reads < 6:
         raise CheckError("iterator configuration fields not found (anchor moved?): %d reads" % reads)
     return r
+
+
+def comp_next_fallthrough(F):
+    """R-COMP-NEXT: ComponentSubIterator::next may report exhaustion (false) only through next_module(): the module
+    iterator's has_next() is an over-approximation (functions left, but possibly all skipped), so a `false` from
+    mod_iterator.next() must fall through to the next module instead of ending the traversal."""
+    r = RuleResult("R-COMP-NEXT",
+                   "every `false` that ComponentSubIterator::next can return comes from next_module(): a failing mod_iterator.next() (all remaining functions of the module skipped) falls through to the next module")
+    fn = F.one_fn(name="next", self_adt="ComponentSubIterator")
+    r.analysed.append(fn["path"])
+
+    def G(e):
+        e = peel(e)
+        k = e.get("k")
+        if k == "Block":
+            if e.get("expr") is not None and not any(s_.get("k") == "Ret" for s_ in walk(e.get("stmts") or [])):
+                return G(e["expr"])
+            return False
+        if k == "Lit":
+            return e.get("lit") == "Bool(true)"
+        if k == "MethodCall":
+            return e["method"] == "next_module"
+        if k == "If":
+            return G(e["then"]) and ("else" in e and G(e["else"]))
+        if k == "Binary" and e.get("op") == "||":
+            return G(e["b"])
+        if k == "Binary" and e.get("op") == "&&":
+            return G(e["a"]) and G(e["b"])
+        if k == "Match":
+            return all(G(a["body"]) for a in e["arms"])
+        if k == "DropTemps":
+            return G(e.get("e") or e.get("a") or {})
+        return False
+
+    ok = G(fn["body"])
+    r.ob(ok, {"fn": fn["path"], "false_only_via_next_module": ok})
+    if not ok:
+        r.violate("%s | early exhaustion" % fn["path"], F.loc(fn),
+                  "ComponentSubIterator::next can return the module iterator's `false` directly: when the remaining functions of a non-final module are all skipped the component traversal ends instead of continuing with the next module")
+    return r
